@@ -5,6 +5,7 @@ func init() {
 	vHarnesses["H_C09_enum_deep"] = H_C09_enum_deep
 	vHarnesses["H_C09_resolve"] = H_C09_resolve
 	vHarnesses["H_C09_resolve_deep"] = H_C09_resolve_deep
+	vHarnesses["H_C09_resolve_long"] = H_C09_resolve_long
 }
 
 type vLeafItem struct {
@@ -118,18 +119,20 @@ func vC09enum(spec vSpec) {
 		lv = Map(m).LeafValues()
 	}
 	vAssert(len(lp) == len(ln) && len(lv) == len(ln), "projections: LeafPaths/LeafValues have one element per LeafNodes entry for the same option")
+	// LeafPaths and LeafValues walk the Map independently: each is compared as a multiset
 	usedP := make([]bool, len(ln))
 	for i := range lp {
 		found := false
 		for j := range ln {
-			if !usedP[j] && lp[i] == ln[j].Path && vSame(lv[i], ln[j].Value) {
+			if !usedP[j] && lp[i] == ln[j].Path {
 				usedP[j] = true
 				found = true
 				break
 			}
 		}
-		vAssert(found, "projections: LeafPaths/LeafValues are the path and value projections of LeafNodes for the same option")
+		vAssert(found, "projections: LeafPaths is the path projection of LeafNodes for the same option")
 	}
+	vAssert(vSameMultiset(lv, gotV), "projections: LeafValues is the value projection of LeafNodes for the same option")
 	vAssertUnchangedSince(mark, "leaves: receiver untouched")
 	SetAttrPrefix("-")
 	LeafUseDotNotation(false)
@@ -189,4 +192,37 @@ func H_C09_resolve_deep() {
 		d = 8
 	}
 	vC09resolve(vSpec{Depth: d, Width: 1, Kinds: "mlsn", KeyAlpha: "ab", KeyMin: 1, KeyMax: 1, StrAlpha: "x", StrMax: 0, NoListInList: true})
+}
+
+// lists with more than ten members: every [N] subscript resolves
+func H_C09_resolve_long() {
+	n := 9 + vChoose(5) // 9..13 members
+	l := make([]interface{}, n)
+	for i := range l {
+		l[i] = vNondetString(1, 1, "xy")
+	}
+	m := Map{"a": map[string]interface{}{"l": l}}
+	dot := vChoose(2) == 1
+	LeafUseDotNotation(dot)
+	ln := m.LeafNodes()
+	LeafUseDotNotation(false)
+	vAssert(len(ln) == n, "resolve(long): one leaf per list member")
+	for i := range ln {
+		idx := -1
+		for j := 0; j < n; j++ {
+			want := "a.l[" + m_strconv_Itoa(j) + "]"
+			if dot {
+				want = "a.l." + m_strconv_Itoa(j)
+			}
+			if ln[i].Path == want {
+				idx = j
+			}
+		}
+		vAssert(idx >= 0 && vSame(ln[i].Value, l[idx]), "resolve(long): the subscript of a list member is its decimal position")
+		if !dot {
+			vs, err := m.ValuesForPath(ln[i].Path)
+			vAssert(err == nil && len(vs) == 1 && vSame(vs[0], ln[i].Value), "resolve(long): the leaf path resolves to the member")
+		}
+	}
+	vCover("long")
 }
